@@ -67,6 +67,11 @@ def oracle_consistency(case, rec):
     m = case['method']
     if not np.array_equal(x, x0):
         raise Violation('C09/consistency/input-modified/' + m, '')
+    # the caller keeps the three arrays and transforms another IMF set of the same shape
+    keep = [np.array(a) for a in (IP, IF, IA)]
+    ft(emd, x0[::-1] * 0.5, case['sr'], m, 'consistency', case.get('smooth', 'default'))
+    if not all(np.array_equal(np.asarray(a), k, equal_nan=True) for a, k in zip((IP, IF, IA), keep)):
+        raise Violation('C09/consistency/earlier-result-changed-by-a-later-request/' + m, '')
     for name, arr in (('IP', IP), ('IF', IF), ('IA', IA)):
         if np.asarray(arr).shape != x.shape:
             raise Violation('C09/consistency/shape/%s/%s' % (name, m), '%r vs %r' % (np.asarray(arr).shape, x.shape))
